@@ -6,8 +6,8 @@ from fractions import Fraction
 from lib.core import *
 
 ID = "C10"
-PROPS_FILES = ["Gama/Props/C10.lean"]
-LEAN_TARGETS = ["Gama.Props.C10"]
+PROPS_FILES = ["Gama/Props/C10.lean", "Gama/Props/C10YSign.lean"]
+LEAN_TARGETS = ["Gama.Props.C10", "Gama.Props.C10YSign"]
 DRIVERS = ["drv_cov"]
 RULE = ("CovMat/BandMat index maps for every dim 1..8 x band 0..dim-1 (exhaustive); band LDL' / Cholesky / forward "
         "substitution on SPD matrices L L' built from small integers, every band; Cluster::activeCov for EVERY active "
@@ -15,7 +15,11 @@ RULE = ("CovMat/BandMat index maps for every dim 1..8 x band 0..dim-1 (exhaustiv
         "BlockDiagonal::cholDec + Homogenization sweep vs the dense path; the whole Homogenization::run on 1..5 blocks of dim "
         "1..6 with every band width, unsorted sparse rows over 1..6 unknowns (empty rows, fill-in, exact zeros, repeated column "
         "indices, not positive definite block first/middle/last); malformed: indefinite, zero / negative "
-        "variance, exactly singular; <cov-mat> documents through gama-local. Distinct = distinct operation line; "
+        "variance, exactly singular; <cov-mat> documents through gama-local; inconsistent axes/angles (all 8 axes-xy) x <vectors> "
+        "clusters with 2..5 vectors / <coordinates> clusters with 3..5 points x full or band >= 3 covariance matrices (L L' and "
+        "diagonally dominant) with non-zero cov(dy_i,dy_j): left- vs right-handed angles x 4 algorithms vs the exact rational "
+        "generalised least squares solution, the same networks through the real change_y_signs_for_inconsistent_system_ in process "
+        "(bit-exact vs the model and vs D C D), and their --export adjusted again. Distinct = distinct operation line; "
         "non-trivial = dim >= 2 (index maps: band >= 1; masks: at least one excluded and one active observation)")
 
 SRC = ["lib/gnu_gama/adj/adj.cpp", "lib/gnu_gama/adj/adj_input_data.cpp", "lib/gnu_gama/adj/icgs.cpp"]
@@ -251,6 +255,7 @@ def correspond(ctx, corr):
     adj_stream(ctx, corr, exe)
     parse_stream(ctx, corr)
     net_stream(ctx, corr)
+    ysign_stream(ctx, corr, drv)
 
 
 # ------------------------------------------------------------------ property oracle on the implementation
@@ -1129,6 +1134,228 @@ def parse_stream(ctx, corr):
             corr.count("f9_accepted_dim_mismatch")
 
 
+# ------------------------------------------------------------------ change_y_signs_for_inconsistent_system_ in process
+
+YSIGN_SITE = "LocalNetwork::change_y_signs_for_inconsistent_system_"
+
+
+def libgama_objects(ctx):
+    d = ctx.build_gama(sanitize=False)
+    objs = sorted(str(p) for p in (d / "CMakeFiles" / "libgama.dir").rglob("*.o"))
+    if not objs:
+        raise BuildError("libgama objects", f"no object files under {d}")
+    return d, objs
+
+
+def ysign_parse(out):
+    """harness output -> dict(consistent, P/R/B: dict(points=[(h, x, y)], clusters=[(dim, band, flags, values, buf)]))"""
+    st = {"consistent": None, "P": {"points": [], "clusters": []}, "R": {"points": [], "clusters": []},
+          "B": {"points": [], "clusters": []}, "E": []}
+    for l in out:
+        t = l.split()
+        if not t:
+            continue
+        if t[0] == "E":
+            if t[1:2] == ["consistent"]:
+                st["consistent"] = t[2] == "1"
+            else:
+                st["E"].append(l)
+        elif t[0] in "PRB" and t[1] == "point":
+            st[t[0]]["points"].append((t[2], t[3], t[4]))
+        elif t[0] in "PRB" and t[1] == "cluster":
+            parts, cur = [], []
+            for x in t[2:]:
+                if x == "|":
+                    parts.append(cur)
+                    cur = []
+                else:
+                    cur.append(x)
+            parts.append(cur)
+            head, flags, vals, buf = parts
+            st[t[0]]["clusters"].append((int(head[0]), int(head[1]), [f == "1" for f in flags], vals, buf))
+    return st
+
+
+def ysign_oracle(st):
+    """independent of the Lean model: remove_inconsistency() of an inconsistent system negates y of the points with
+    coordinates, the values of the Y / Ydiff observations, and turns every covariance matrix C into D C D (stored entry
+    (i,j) negated iff EXACTLY ONE of i, j is mirrored); a consistent system is left alone; return_inconsistency() restores
+    the input bit for bit"""
+    bad = []
+    neg = lambda h: float2hex(-hex2float(h))
+    same = lambda a, b: hex2float(a) == hex2float(b)
+    P, R, B = st["P"], st["R"], st["B"]
+    if len(R["points"]) != len(P["points"]) or len(R["clusters"]) != len(P["clusters"]) or B != P:
+        if B != P:
+            bad.append("remove_inconsistency() followed by return_inconsistency() does not restore points / values / covariances")
+        if len(R["points"]) != len(P["points"]) or len(R["clusters"]) != len(P["clusters"]):
+            return bad + ["different number of points / clusters after remove_inconsistency()"]
+    if st["consistent"]:
+        if R != P:
+            bad.append("consistent system changed by remove_inconsistency()")
+        return bad
+    for k, ((h, x, y), (h2, x2, y2)) in enumerate(zip(P["points"], R["points"])):
+        if h2 != h or not same(x2, x) or not same(y2, neg(y) if h == "1" else y):
+            bad.append(f"point {k}: (x, y) = ({hex2float(x)}, {hex2float(y)}) -> ({hex2float(x2)}, {hex2float(y2)}), expected y negated")
+    for k, ((d, b, fl, vals, buf), (d2, b2, fl2, vals2, buf2)) in enumerate(zip(P["clusters"], R["clusters"])):
+        if (d2, b2, fl2) != (d, b, fl) or len(vals2) != len(vals) or len(buf2) != len(buf):
+            bad.append(f"cluster {k}: shape changed")
+            continue
+        for i, (f, v, v2) in enumerate(zip(fl, vals, vals2)):
+            if not same(v2, neg(v) if f else v):
+                bad.append(f"cluster {k}: value of observation {i + 1} ({'mirrored' if f else 'not mirrored'}) {hex2float(v)} -> {hex2float(v2)}")
+        pos = 0
+        mir = lambda i: i <= len(fl) and fl[i - 1]
+        for i in range(1, d + 1):
+            for j in range(i, min(d, i + b) + 1):
+                want = neg(buf[pos]) if mir(i) != mir(j) else buf[pos]
+                if not same(buf2[pos], want):
+                    bad.append(f"cluster {k} (dim {d}, band {b}): C({i},{j}) = {hex2float(buf[pos])} -> {hex2float(buf2[pos])} with "
+                               f"mirrored[{i}] = {int(mir(i))}, mirrored[{j}] = {int(mir(j))}: D C D has {hex2float(want)}")
+                pos += 1
+    return bad
+
+
+def ysign_export_check(gama, tmp, tag, gkf):
+    """adjust, --export, adjust the export: same adjusted coordinates and [pvv] (the export applies y_sign() to y / dy and the
+    sign rule of updated_xml_covmat to the covariances, the parser + remove_inconsistency() undo both)"""
+    from props import c10_net
+    a = Path(tmp) / f"{tag}.gkf"
+    a.write_text(gkf)
+    ex = Path(tmp) / f"{tag}-export.gkf"
+    rc, out, err = sh([str(gama), str(a), "--algorithm", "gso", "--export", str(ex), "--xml", str(Path(tmp) / f"{tag}.xml")], timeout=120)
+    if rc != 0 or not ex.exists():
+        return [f"gama-local --export failed (rc {rc}): {(err or out)[-200:]}"]
+    r1 = c10_net._run_one(gama, str(tmp), tag + "-a", gkf, "gso")
+    r2 = c10_net._run_one(gama, str(tmp), tag + "-b", ex.read_text(), "gso")
+    if c10_net._rejected(r1) or not r1["adj"]:
+        return []                                      # the network stream reports that
+    if c10_net._rejected(r2) or not r2["adj"]:
+        return ["the exported network is refused: " + c10_net._outcome(r2)[:300]]
+    bad = []
+    for pid, dct in r1["adj"].items():
+        for cc, x in dct.items():
+            y = r2["adj"].get(pid, {}).get(cc)
+            # exported approximate coordinates / values are printed with fewer digits than the adjustment carries
+            if y is None or abs(x - y) > 2e-7:
+                bad.append(f"{pid}.{cc}: {x!r} adjusted, {y!r} after export (diff {abs(x - (y or 0)):.3e} m)")
+    if abs(r1["pvv"] - r2["pvv"]) > 1e-6 + 1e-5 * max(abs(r1["pvv"]), abs(r2["pvv"])):
+        bad.append(f"[pvv] {r1['pvv']!r} adjusted, {r2['pvv']!r} after export")
+    return bad
+
+
+def ysign_stream(ctx, corr, drv, count=None, tmpdir=None):
+    from props import c10_net
+    d, objs = libgama_objects(ctx)
+    exe = ctx.build_cpp("c10_ysign", [ctx.verif / "harness" / "c10_ysign.cpp"], libs=objs + ["-lexpat"],
+                        includes=[ctx.verif / "harness"])
+    import tempfile
+    import shutil
+    tmp = Path(tempfile.mkdtemp(prefix="c10ys-", dir=str(ctx.build)))
+    try:
+        nets = []
+        for k in range(count or ctx.size(10, 80)):
+            c = c10_net.gen_ysign(ctx.rng, k)
+            for v in c["variants"]:
+                nets.append((c, v))
+        cases = []
+        for i, (c, v) in enumerate(nets):
+            f = tmp / f"n{i}.gkf"
+            f.write_text(v["gkf"])
+            cases.append([f"ysign {f}"])
+        impl, crashes = run_cases(exe, cases)
+        sts, mcases = [], []
+        for i, out in enumerate(impl):
+            st = ysign_parse(out or []) if i not in crashes else None
+            sts.append(st)
+            ops = []
+            if st and st["consistent"] is False:
+                ops += [f"ypointF {h} {x} {y}" for h, x, y in st["P"]["points"]]
+                ops += ["ysignF %d %d %s | %s | %s" % (dd, bb, " ".join(buf), " ".join("1" if f else "0" for f in fl), " ".join(vals))
+                        for dd, bb, fl, vals, buf in st["P"]["clusters"]]
+            mcases.append(ops)
+        model, _ = run_cases(drv, mcases)
+        for i, (c, v) in enumerate(nets):
+            st = sts[i]
+            payload = {"stream": "ysign", "gkf": v["gkf"], "variant": v["name"], "sub": c["sub"]}
+            usable = st is not None and st["consistent"] is not None and not st["E"]
+            inconsistent = usable and not st["consistent"]
+            corr.case(key=("ysign", c["sub"], c["meta"]["n"], c["meta"]["band"], v["name"]) if inconsistent else None,
+                      sample={"stream": "ysign", "variant": v["name"], "sub": c["sub"], "n": c["meta"]["n"],
+                              "band": c["meta"]["band"]} if i < 2 else None)
+            if i in crashes or not usable:
+                corr.fail("harness c10_ysign failed on a valid network", payload, YSIGN_SITE,
+                          (crashes.get(i, (0, ""))[1] or "\n".join((impl[i] or [])[:3]))[:600])
+                continue
+            corr.count("ysign_networks")
+            corr.count("ysign_inconsistent" if inconsistent else "ysign_consistent")
+            bad = ysign_oracle(st)
+            if bad:
+                corr.fail("y mirroring of an inconsistent system: " + bad[0], payload, YSIGN_SITE, "\n".join(bad[:8]))
+            if not inconsistent:
+                continue
+            np_ = len(st["P"]["points"])
+            want = ["ok %s %s" % (x, y) for _, x, y in st["R"]["points"]] + \
+                   ["ok %d %d %s | %s" % (dd, bb, " ".join(buf), " ".join(vals)) for dd, bb, fl, vals, buf in st["R"]["clusters"]]
+            got = model[i] or []
+            corr.count("ysign_clusters", len(st["P"]["clusters"]))
+            corr.count("ysign_cov_entries", sum(len(cl[4]) for cl in st["P"]["clusters"]))
+            corr.count("ysign_mirrored_pairs", sum(1 for cl in st["P"]["clusters"] for a in range(len(cl[2]))
+                                                  for b2 in range(a + 1, len(cl[2])) if cl[2][a] and cl[2][b2]))
+            if len(got) != len(want) or any(a.split() != b.split() for a, b in zip(got, want)):
+                k = next((k for k, (a, b) in enumerate(zip(got, want)) if a.split() != b.split()), min(len(got), len(want)))
+                corr.disagree("ysign", (mcases[i][k:k + 1] or mcases[i][:1]) + [v["gkf"]], want[k:k + 1], got[k:k + 1],
+                              f"line {k} ({'point' if k < np_ else 'cluster'}) of {len(want)}; variant {v['name']}")
+        # way out (C10_y_sign_sites_agree): the --export of an inconsistent network, adjusted again, is the same adjustment
+        gama = d / "gama-local"
+        todo = [(i, c, v) for i, (c, v) in enumerate(nets) if sts[i] and sts[i]["consistent"] is False][:ctx.size(6, 30)]
+        for i, c, v in todo:
+            payload = {"stream": "ysign-export", "gkf": v["gkf"], "variant": v["name"], "sub": c["sub"]}
+            bad = ysign_export_check(gama, tmp, f"x{i}", v["gkf"])
+            corr.count("ysign_export_roundtrips")
+            corr.case(key=("ysign-export", c["sub"], c["meta"]["n"], c["meta"]["band"], v["name"]))
+            if bad:
+                corr.fail("export of an inconsistent network with a correlated cluster is not the same adjustment: " + bad[0],
+                          payload, "LocalNetwork::updated_xml_covmat", "\n".join(bad[:8]))
+        if corr.stats.get("ysign_inconsistent", 0) < 4 or corr.stats.get("ysign_mirrored_pairs", 0) < 4:
+            corr.inconclusive.append("ysign: fewer than 4 inconsistent networks / pairs of mirrored components")
+    finally:
+        shutil.rmtree(tmp, ignore_errors=True)
+
+
+def ysign_replay(ctx, inp):
+    """the recorded network through the real change_y_signs_for_inconsistent_system_ again: oracle (D C D) and model"""
+    import tempfile
+    d, objs = libgama_objects(ctx)
+    exe = ctx.build_cpp("c10_ysign", [ctx.verif / "harness" / "c10_ysign.cpp"], libs=objs + ["-lexpat"],
+                        includes=[ctx.verif / "harness"])
+    with tempfile.TemporaryDirectory() as tmp:
+        f = Path(tmp) / "replay.gkf"
+        f.write_text(inp["gkf"])
+        impl, crashes = run_cases(exe, [[f"ysign {f}"]])
+        if crashes:
+            print("harness crashed:", crashes[0][1][-500:])
+            return 1
+        st = ysign_parse(impl[0])
+        bad = ysign_oracle(st)
+        for b in bad[:10]:
+            print("ORACLE:", b)
+        rc = 1 if bad else 0
+        if st["consistent"] is False:
+            ops = [f"ypointF {h} {x} {y}" for h, x, y in st["P"]["points"]] + \
+                  ["ysignF %d %d %s | %s | %s" % (dd, bb, " ".join(buf), " ".join("1" if fl_ else "0" for fl_ in fl), " ".join(vals))
+                   for dd, bb, fl, vals, buf in st["P"]["clusters"]]
+            want = ["ok %s %s" % (x, y) for _, x, y in st["R"]["points"]] + \
+                   ["ok %d %d %s | %s" % (dd, bb, " ".join(buf), " ".join(vals)) for dd, bb, fl, vals, buf in st["R"]["clusters"]]
+            mod, _ = run_cases(ctx.driver("drv_cov"), [ops])
+            for o, a, b in zip(ops, want, mod[0] + [""] * len(want)):
+                if a.split() != b.split():
+                    print("DISAGREE: implementation vs model on", o[:200]); print("impl :", a[:300]); print("model:", b[:300])
+                    rc = 1
+        print("ysign replay:", "still fails" if rc else "ok")
+        return rc
+
+
 def net_stream(ctx, corr):
     from props import c10_net
     gdir = ctx.build_gama(sanitize=False, targets=("gama-local",))
@@ -1143,6 +1370,9 @@ def search(ctx, broken, corr):
         if d["stream"] == "covparse":
             payload = {"stream": "covparse", "model_op": d["case"][0], "gkf": d["case"][1], "impl": d["impl"], "model": d["model"]}
             site = "GKFparser::finish_cov"
+        elif d["stream"] == "ysign":
+            payload = {"stream": "ysign", "model_op": d["case"][0], "gkf": d["case"][-1], "impl": d["impl"], "model": d["model"]}
+            site = YSIGN_SITE
         else:
             payload = {"stream": d["stream"], "ops": d["case"], "impl": d["impl"], "model": d["model"]}
             site = {"idx": "CovMat::operator[]", "bandidx": "BandMat::operator()", "chol": "CovMat::cholDec",
@@ -1172,6 +1402,18 @@ def translate(ctx):
     if missing:
         raise TieBroken("GKFparser dim guard", "no `idim != observation_list.size()` guard in " + ", ".join(missing) +
                         " (lib/gnu_gama/xml/gkfparser.cpp); Model/CovParse.finishObs/finishHdiffs model the guarded code")
+    # the sign rule of the covariances under the internal y mirroring, way in and way out: Gen/YSign.lean
+    sys.path.insert(0, str(VERIF / "tools" / "gen"))
+    import c10_ysign
+    try:
+        text = c10_ysign.gen(ctx.repo)
+    except c10_ysign.YSignError as e:
+        raise TieBroken("c10_ysign translator", str(e))
+    except (OSError, IndexError, ValueError, KeyError) as e:
+        raise TieBroken("c10_ysign translator", repr(e))
+    f = ctx.lean / "Gama" / "Gen" / "YSign.lean"
+    if not f.exists() or f.read_text() != text:
+        f.write_text(text)
 
 
 def replay(ctx, payload):
@@ -1184,6 +1426,15 @@ def replay(ctx, payload):
         fails, text = c10_net.replay_case(ctx.build_gama(sanitize=False, targets=("gama-local",)), inp)
         print(text[:4000])
         return 1 if fails else 0
+    if inp.get("stream") == "ysign":
+        return ysign_replay(ctx, inp)
+    if inp.get("stream") == "ysign-export":
+        import tempfile
+        with tempfile.TemporaryDirectory() as tmp:
+            bad = ysign_export_check(ctx.build_gama(sanitize=False) / "gama-local", tmp, "replay", inp["gkf"])
+        for b in bad[:10]:
+            print("ORACLE:", b)
+        return 1 if bad else 0
     if "gkf" in inp:
         from props import c10_net
         import tempfile
@@ -1228,11 +1479,18 @@ LEVEL_TEXT = ("Lean 4 theorems (all dimensions, band widths, masks, all field el
               "<cov-mat> accounting of GKFparser, and the whole Homogenization::run on a multi-block AdjInputData (replicate, "
               "cholDec, UpperBlockDiagonal, rhs sweep, counting, perm/invp/T gather, per-column substitution, scatter without "
               "exact zeros); whitening (homogenisation) proved over Mathlib matrices; models tied to the C++ "
-              "by differential correspondence (exact rationals / doubles) and a property oracle on the implementation.")
-LEVEL_NOTE = ("Trusted: Lean kernel, statements in Props/C10.lean, harness/c10_cov.cpp, generators and tolerances. IEEE rounding is "
+              "by differential correspondence (exact rationals / doubles) and a property oracle on the implementation. "
+              "The internal y mirroring of inconsistent systems (LocalNetwork::change_y_signs_for_inconsistent_system_) is modelled as "
+              "a whole; the boolean sign rule of the covariances is regenerated from network.cpp for the way in and the way out "
+              "(updated_xml_covmat) and proved to be the exclusive or, i.e. C -> D C D (symmetric, positive definite iff C is, the "
+              "weighted problem of the mirrored description; the export writes back the input matrix).")
+LEVEL_NOTE = ("Trusted: Lean kernel, statements in Props/C10.lean and Props/C10YSign.lean, harness/c10_cov.cpp, harness/c10_ysign.cpp, "
+              "tools/gen/c10_ysign.py (parses the two sign conditions; everything around them is matched against the modelled shape), "
+              "generators and tolerances. IEEE rounding is "
               "not modelled (theorems are over ordered fields; Float runs are compared with tolerance 1e-9).")
 TECHNIQUE = "Lean 4 proof (index bijection, loop invariants, matrix algebra) + model/implementation correspondence"
 TRUSTED = ["harness/c10_cov.cpp (test Observation type for Cluster<Observation>)",
+           "harness/c10_ysign.cpp (real LocalNetwork built by GKFparser; remove_inconsistency / return_inconsistency)",
            "gama-local executable behaviour observed through exit code / message text / --xml output"]
 MODELLED = ["IEEE rounding in the Cholesky kernels (proved over ordered fields with sqrt; executed at Rat and Float)",
             "toDouble / toIndex / white-space splitting of <cov-mat> character data (input abstraction, owned by C11)",
